@@ -461,7 +461,16 @@ impl Ignore {
                 // off of `path`. Overall, this seems a little ham-fisted, but
                 // it does fix a nasty bug. It should do fine until we overhaul
                 // this crate.
-                let dirpath = self.0.dir.as_path();
+                //
+                // The prefix in question is the path of the directory the
+                // absolute base path belongs to, i.e., the outermost matcher
+                // that isn't an absolute parent, and not the directory of
+                // this matcher (which may be arbitrarily deep below it).
+                let dirpath = self
+                    .parents()
+                    .take_while(|ig| !ig.0.is_absolute_parent)
+                    .last()
+                    .map_or(self.0.dir.as_path(), |ig| ig.0.dir.as_path());
                 let path_prefix = match strip_prefix("./", dirpath) {
                     None => dirpath,
                     Some(stripped_dot_slash) => stripped_dot_slash,
